@@ -18,9 +18,9 @@ def check(run):
         raise
     if s["cases"] != n:
         raise core.Inconclusive("driver did not consume every case")
-    run.evaluations = n + s["mutants"]
-    run.traces = n + s["mutants_answered"]
-    run.nontrivial = s["helper_calls_with_hostile_argument"] + s["malformed_or_oversized_requests"]
+    run.evaluations = n + s["hostile_header_variants"] + s["mutants"]
+    run.traces = n + s["hostile_header_variants"] + s["mutants_answered"]
+    run.nontrivial = s["helper_calls_with_hostile_argument"] + s["malformed_or_oversized_requests"] + s["hostile_header_variants"]
     run.exhaustive = True
     run.rule = ("TLC enumerates the connection behaviours of Wire.tla: 14 request classes (unknown / invalid method, malformed target and version, Content-Length abc / negative / "
                 "duplicated, bad chunk, oversized header / target / body, hostile Range/Accept*/Cookie/Content-Encoding/X-Forwarded-For/multipart values, absolute URI) with the "
@@ -33,4 +33,5 @@ def check(run):
     run.extra["driver_summary"] = s
     run.extra["violations_by_check"] = dict(collections.Counter(v["check"] for v in run.violations))
     run.assumptions = ["grammar-directed enumeration, not coverage-guided fuzzing: crash-freedom is claimed only for the enumerated classes",
-                       "invalid method bytes may be answered 400 or 501"]
+                       "invalid method bytes may be answered 400 or 501", "Port() is not called: it panics by design on a non-TCP peer such as the in-memory connection",
+                       "a response carrying Connection: close must not be followed by another response, whatever its status"]
